@@ -757,9 +757,12 @@ pub fn prefix_record(args: &[String]) {
 	let mut rng = Rng::new(seed ^ 0x9e1f7);
 	let vals = |r: &IndicatorResult| -> Vec<f64> { r.values().iter().map(|x| *x as f64).collect() };
 	let sigs = |r: &IndicatorResult| -> Vec<i64> { r.signals().iter().map(|a| crate::action::code(*a)).collect() };
+	// YV_EXCLUDE: indicators left out (an open known finding gets its own traces); YV_PREFIX_NOSIG: values only
+	let excluded: Vec<String> = std::env::var("YV_EXCLUDE").map(|v| v.split(',').map(str::to_string).collect()).unwrap_or_default();
+	let nosig = std::env::var("YV_PREFIX_NOSIG").is_ok();
 	for round in 0..rounds {
 		for name in NAMES {
-			if only.is_some_and(|o| o != *name) {
+			if only.is_some_and(|o| o != *name) || excluded.iter().any(|x| x == name) {
 				continue;
 			}
 			let cfg = random_cfg(name, &mut rng, round % 3 != 0);
@@ -806,7 +809,7 @@ pub fn prefix_record(args: &[String]) {
 						v0.get_or_insert(vb);
 						let m = v.iter().fold(0.0f64, |m, x| if x.is_finite() { m.max(x.abs()) } else { m });
 						let mut ev = json!({"ev":"pre_const","y":v.iter().map(|x| fx(*x)).collect::<Vec<_>>(),"mag":fx(m)});
-						if still {
+						if still && !nosig {
 							ev["s"] = json!(sigs(&r));
 						}
 						tw.ev(ev)
@@ -833,7 +836,7 @@ pub fn prefix_record(args: &[String]) {
 						same_bits = same_bits && va.iter().zip(vb.iter()).all(|(p, q)| p.to_bits() == q.to_bits() || (p.is_nan() && q.is_nan()));
 						let m = va.iter().chain(vb.iter()).fold(mag, |m, x| if x.is_finite() { m.max(x.abs()) } else { m });
 						let mut ev = json!({"ev":"pre_pair","y":va.iter().map(|x| fx(*x)).collect::<Vec<_>>(),"yk":vb.iter().map(|x| fx(*x)).collect::<Vec<_>>(),"mag":fx(m)});
-						if same_bits {
+						if same_bits && !nosig {
 							ev["s"] = json!(sigs(&ra));
 							ev["sk"] = json!(sigs(&rb));
 						}
